@@ -44,7 +44,17 @@ func (s *vfStream) bytes() string {
 	return s.Header + strings.Join(s.Elems, "") + s.tailXML()
 }
 
+// tailXML: an unknown element is followed by a valid stanza, so that an implementation that silently skips the
+// unknown element (instead of reporting an error for it) is seen returning that stanza.
 func (s *vfStream) tailXML() string {
+	t := s.tailElem()
+	if strings.HasPrefix(s.Tail, "unknown-") {
+		t += `<message id="after-unknown" from="a@b"><body>x</body></message>`
+	}
+	return t
+}
+
+func (s *vfStream) tailElem() string {
 	switch s.Tail {
 	case "close":
 		return "</stream:stream>"
